@@ -2,8 +2,8 @@
    Statements only; every proof is `exact <lemma>` into C13_ACL/{Proofs,Roles,Closure,Link}.v.
    Model: C13_ACL/Model.v (pkg/appdef/acl).  Names are numbered in QName order; fields 0..4 are
    the system fields.  The model takes three flags the translator reads from the Go source; the
-   main theorems below are about the code as it is now (all three defects C13-F1..F4 repaired:
-   commits f6551f282, f6b8b67e8, feabf8710) and rest on the three side-condition lemmas, so that a
+   main theorems below are about the code as it is now (defects C13-F1..F6 repaired: commits
+   f6551f282, f6b8b67e8, feabf8710, 703ca3b05, 7ccaa0849) and rest on the three side-condition lemmas, so that a
    regression of any of the repairs re-opens them.  The shapes found before the repairs are kept
    at the end as refutation witnesses about explicit flag values. *)
 From Coq Require Import List NArith Bool Relations.
@@ -25,6 +25,28 @@ Proof. reflexivity. Qed.
 (* RecursiveRoleAncestors is one closure with a visited set (C13-F2/F3 repaired) *)
 Lemma role_ancestors_is_closure : acl_rra_closure = true.
 Proof. reflexivity. Qed.
+
+(* GRANT ALL / REVOKE ALL is refused unless all types its filter matches have the same operations (C13-F5 repaired) *)
+Lemma all_rule_requires_uniform_operations : acl_all_requires_uniform_ops = true.
+Proof. reflexivity. Qed.
+(* the VSQL compiler emits the GRANTs and REVOKEs of a block in textual order (C13-F6 repaired) *)
+Lemma rules_compiled_in_source_order : parser_acl_grants_first = false.
+Proof. reflexivity. Qed.
+
+(* ===== declared rules ===== *)
+
+(* The rule list the built application holds (per workspace and application-wide; compared with
+   IWorkspace.ACL() / IAppDef.ACL() on every run) is the declared list in declaration order -
+   nothing reordered, so a rule repeated after an opposing rule takes effect again. *)
+Theorem rules_kept_in_declared_order : forall l, compiled_order l = l.
+Proof. exact (compiled_order_cur rules_compiled_in_source_order). Qed.
+
+(* A declared GRANT ALL / REVOKE ALL that the builder accepts gives every resource it matches exactly
+   the operations applicable to that resource - what the oracle reads ALL as. *)
+Theorem all_rule_covers_every_applicable_operation :
+  forall S d t, accepted S d = true -> dall d = true ->
+  In t (vis_types S (dws d)) -> fmatch (rflt (drl d)) t = true -> rops (eff_rule S d) = taclops t.
+Proof. exact (accepted_all_ops_cur all_rule_requires_uniform_operations). Qed.
 
 (* ===== the rule fold of checkOperationOnTypeForRoles ===== *)
 
@@ -232,6 +254,34 @@ Proof.
             [mkWs 20 [] [mkRule [acl_op_inherits] true (FQNames [11]) [] 10; mkRule [acl_op_inherits] true (FQNames [10]) [] 11]]), 10, 20.
   split; [vm_compute; reflexivity|]. eexists. vm_compute. reflexivity.
 Qed.
+(* C13-F6: with all GRANTs of a block compiled before its REVOKEs the ACL is not the declared list and
+   the decision changes (REVOKE; GRANT in one block: allowed as declared, denied as compiled) ... *)
+Theorem grants_first_refuted :
+  exists S l sysr w op res rol, compiled_order_gen true l <> l /\
+    is_allowed (install S l) sysr w op res [] rol = OAllow /\
+    is_allowed (install S (compiled_order_gen true l)) sysr w op res [] rol = ODeny.
+Proof.
+  exists (mkSchema [mkTyp 11 19 20 [] None false false true false [8]; mkTyp 14 5 20 [] (Some [0; 1; 4; 5]) true false false true [1; 2; 3; 4; 5]] [mkWs 20 [] []]),
+    [mkD 20 7 false (mkRule [acl_op_select] false (FQNames [14]) [] 11); mkD 20 7 false (mkRule [acl_op_select] true (FQNames [14]) [] 11)],
+    99, 20, acl_op_select, 14, [11].
+  split; [vm_compute; discriminate|]. split; vm_compute; reflexivity.
+Qed.
+(* ... except for rules declared one by one (a block each), as through the builder API *)
+Theorem grants_first_partial :
+  forall gf l, NoDup (map dblk l) -> compiled_order_gen gf l = l.
+Proof. exact compiled_order_distinct_blocks. Qed.
+(* C13-F5: without the uniformity requirement an accepted ALL rule could give a resource fewer
+   operations than apply to it (view sorting before a table) *)
+Theorem all_rule_refuted_without_uniformity :
+  exists S d t, accepted_gen false S d = true /\ dall d = true /\ In t (vis_types S (dws d)) /\
+    fmatch (rflt (drl d)) t = true /\ rops (eff_rule S d) <> taclops t.
+Proof.
+  pose (v := mkTyp 13 12 20 [] (Some [0; 5]) false false false true [1; 2; 5]).
+  pose (t := mkTyp 14 7 20 [] (Some [0; 1; 4; 5]) true false false true [1; 2; 3; 4; 5]).
+  exists (mkSchema [v; t] [mkWs 20 [] []]), (mkD 20 0 true (mkRule [] true (FQNames [13; 14]) [] 11)), t.
+  split; [reflexivity|]. split; [reflexivity|]. split; [vm_compute; auto|]. split; [reflexivity|]. vm_compute. discriminate.
+Qed.
+
 Theorem role_ancestors_complete_partial :
   forall S w, ancs S w = [] -> forall r x, inherits_star S w r x ->
   forall fuel l, rra fuel S r w = Some l -> In x l.
@@ -327,6 +377,16 @@ Example declared_order_nonvacuous :
   map rops (spec_rules S0 [all] 20 (mkTyp 16 12 20 [] (Some [0; 5]) false false false true [1; 2; 5])) = [[1; 2; 5]].
 Proof. vm_compute. repeat split. Qed.
 
+Example all_rule_nonvacuous :
+  let S0 := mkSchema [mkTyp 13 7 20 [] (Some [0; 1; 4; 5]) true false false true [1; 2; 3; 4; 5];
+                      mkTyp 14 5 20 [] (Some [0; 1; 4; 6]) true false false true [1; 2; 3; 4; 5];
+                      mkTyp 16 12 20 [] (Some [0; 5]) false false false true [1; 2; 5]] [mkWs 20 [] []] in
+  accepted S0 (mkD 20 0 true (mkRule [] true (FQNames [13; 14]) [] 11)) = true /\
+  rops (eff_rule S0 (mkD 20 0 true (mkRule [] true (FQNames [13; 14]) [] 11))) = [1; 2; 3; 4; 5] /\
+  accepted S0 (mkD 20 0 true (mkRule [] true (FQNames [14; 16]) [] 11)) = false /\
+  accepted S0 (mkD 20 0 false (mkRule [acl_op_select] true (FQNames [14; 16]) [] 11)) = true.
+Proof. vm_compute. repeat split. Qed.
+
 Example link_nonvacuous :
   let q := mkQ 20 acl_op_select 14 [1; 5] [13; 10; 11; 12] OAllow in
   qout q = is_allowed_gen found_cfg ex_schema 99 20 acl_op_select 14 [1; 5] [13; 10; 11; 12] /\
@@ -336,6 +396,11 @@ Example link_nonvacuous :
   sat_query ex_schema (fun w _ => all_rules ex_schema w) 99 (mkQ 20 acl_op_select 14 [7] [13] ODeny) = false.
 Proof. vm_compute. repeat split. Qed.
 
+Print Assumptions rules_kept_in_declared_order.
+Print Assumptions all_rule_covers_every_applicable_operation.
+Print Assumptions grants_first_refuted.
+Print Assumptions grants_first_partial.
+Print Assumptions all_rule_refuted_without_uniformity.
 Print Assumptions fields_fold_is_last_rule_wins.
 Print Assumptions fold_result_with_fields.
 Print Assumptions fold_result_without_fields.
